@@ -97,6 +97,22 @@ func c12Ops() []c12Op {
 	}
 }
 
+// sigClassF2 keeps family, position and the outermost construct letters of an F2/F2L signature, so that
+// violation keys group by shape class instead of by individual tree.
+func sigClassF2(sig string) string {
+	p := strings.SplitN(sig, "/", 3)
+	if len(p) < 3 {
+		return sig
+	}
+	var b strings.Builder
+	for _, ch := range p[2] {
+		if ch >= 'a' && ch <= 'z' || ch >= 'A' && ch <= 'Z' {
+			b.WriteRune(ch)
+		}
+	}
+	return p[0] + "/" + p[1] + "/" + b.String()
+}
+
 func errStr(err error, pn *nagax.Panic) string {
 	if pn != nil {
 		return "panic:" + errClass(pn.Value)
@@ -363,6 +379,23 @@ func runC12() int {
 	r.ParallelFor(len(progs), func(i int) {
 		c12Histories(r, progs[i].Name, progs[i].Src, depth, tot)
 	})
+	// depth-1 sweep over whole program families: every operation once on every control-flow tree (global
+	// and function-local accumulators), so that "no backend modifies the module it is given" is judged on
+	// every statement shape of the alphabet and not only on the representatives above
+	sweep := []*wgen.Family{wgen.F2(2, false), wgen.F2L(2, false)}
+	if r.Thorough() {
+		sweep = []*wgen.Family{wgen.F2(3, false), wgen.F2L(3, false)}
+	}
+	nsweep := 0
+	for _, f := range sweep {
+		f := f
+		nsweep += f.Count
+		r.ParallelFor(f.Count, func(i int) {
+			c := f.At(i)
+			c12Histories(r, sigClassF2(c.Sig), wgen.Print(c.Mod), 1, tot)
+		})
+	}
+	r.Extra("history_sweep_programs_depth1", nsweep)
 	r.Extra("history_depth", depth)
 	r.Extra("history_programs", len(progs))
 	r.Extra("history_ops", 9)
